@@ -60,8 +60,9 @@ DELIVERABLES (all inside {wt})
 4. {wt}/out/demo_cmd.txt = one line: the go test command (using $G, run from {wt}/go) that runs only your demonstration.
 5. {wt}/out/meta.json with string fields: "property" ("{pid}"), "summary" (what was changed, file and function), "why_it_breaks",
    "needs_to_manifest" (exactly what has to come together), "files_changed" (list), "existing_tests_run" (list of commands and
-   results), "demo_fails_with_change" (true), "demo_passes_without_change" (true; verify with `git stash` or by reverting the
-   patch and re-applying it), and "side_findings": anything the UNMODIFIED code already does wrong with respect to the property
+   results), "demo_fails_with_change" (true), "demo_passes_without_change" (true; verify by reverting the patch with
+   `git diff > /tmp/<tag>.patch && git apply -R /tmp/<tag>.patch` and re-applying it with `git apply`; do NOT use `git stash`, it is shared
+   between all worktrees of the repository), and "side_findings": anything the UNMODIFIED code already does wrong with respect to the property
    that you noticed while reading (file, function, how to trigger) - or an empty string.
 Before finishing: verify the demo passes without the change and fails with it, leave the worktree WITH the change applied,
 and reply with a short summary (what, where, what it needs to manifest, and any side findings). Do not remove the worktree.""")
